@@ -25,7 +25,7 @@ RULE = ("a fixed catalogue of statement templates (assignment to name/attribute/
         "Non-trivial: the statement has >= 2 probes whose relative order is observable; distinct "
         "by (template, placement).")
 
-PRE = "o = OBJ('o')\no2 = OBJ('o2')\no.a = 1\no.c = 2\nb = BOX('b', {'k': 1, 'j': 2})\nl = BOX('l', [0, 1, 2, 3, 4, 5])\n"
+PRE = "o = OBJ('o')\no2 = OBJ('o2')\no.a = 1\no.c = 2\no.sub = OBJ('sub')\no.sub.c = 1\no.sub.d = BOX('subd', {'k': 1})\nb = BOX('b', {'k': 1, 'j': 2})\nl = BOX('l', [0, 1, 2, 3, 4, 5])\n"
 
 AUG_OPS = ["+=", "-=", "*=", "/=", "//=", "%=", "**=", "<<=", ">>=", "&=", "|=", "^=", "@="]
 
@@ -87,6 +87,16 @@ TEMPLATES = [
     "x = P(1, l)[P(2, 1):P(3, 4):P(4, 2)]",
     "x = P(1, o).a",
     "print(P(1, 1), P(2, 2), sep=P(3, ''))",
+    # the object of an augmented / plain store is itself an attribute chain whose reads are logged
+    "o.sub.c += P(1, 5)",
+    "o.sub.d['k'] -= P(1, 2)",
+    "o.sub.c = P(1, 7)\no.sub.d[P(2, 'j')] = o.sub.c",
+    "o.sub.c, o.sub.d['k'] = P(1, (1, 2))",
+    # expression statements without a call: attribute and item reads still happen (properties, __getattr__, defaultdict)
+    "o.a",
+    "b['k']",
+    "o.sub.c\nl[0]\no.sub.d['k']",
+    "o\n5\n'just a string'\nl[1:3]\n-o.a\n(o.a, b['k'])",
     "x: int = P(1, 1)",
     "P(1, o).a: int = P(2, 5)",
     "P(1, b)[P(2, 'k')]: int = P(3, 5)",
@@ -112,6 +122,13 @@ for _op in AUG_OPS:
     TEMPLATES.append("P(1, o).a %s P(2, MK('binary_only', 3))" % _op)
     TEMPLATES.append("P(1, b)[P(2, 'k')] %s P(3, MK('inplace_self', 3))" % _op)
     TEMPLATES.append("v = MK('inplace_new', 2)\nv %s P(1, 5)" % _op)
+# the value is a bare name that the target's own subexpressions rebind: Python reads the value first
+TEMPLATES_MODULE_ONLY = [
+    "cur = 1\ndef nxt():\n    global cur\n    cur = 2\n    return 'k'\nb[nxt()] = cur\nL('v', b['k'], cur)",
+    "cur = 1\ndef obj():\n    global cur\n    cur += 10\n    return o\nobj().a = cur\nobj().c = 5\nL('v', o.a, o.c, cur)",
+    "cur = [0]\ndef nxt():\n    global cur\n    cur = [9]\n    return 0\nl[nxt()] = cur\nL('v', l[0], cur)",
+    "cur = 1\ndef nxt():\n    global cur\n    cur = 2\n    return 'k'\nb[nxt()] += cur\nL('v', b['k'], cur)",
+]
 TEMPLATES_IN_FUNC_ONLY = [
     "return P(1, 1)",
     "if P(1, 1):\n    return P(2, 2)\nP(3)",
@@ -181,6 +198,7 @@ def _template_shard(item):
     part = new_part()
     cases = [(t, w) for t in TEMPLATES for w in ("module", "function", "class")]
     cases += [(t, "function") for t in TEMPLATES_IN_FUNC_ONLY]
+    cases += [(t, "module") for t in TEMPLATES_MODULE_ONLY]
     for k in range(idx, len(cases), nshards):
         check_template(part, cases[k][0], cases[k][1], switches)
     if idx == 0:
@@ -285,7 +303,8 @@ def run(report):
     others = hosts.available_other_hosts()
     cases = []
     for i, (t, w) in enumerate([(t, w) for t in TEMPLATES for w in ("module", "function", "class")]
-                               + [(t, "function") for t in TEMPLATES_IN_FUNC_ONLY]):
+                               + [(t, "function") for t in TEMPLATES_IN_FUNC_ONLY]
+                               + [(t, "module") for t in TEMPLATES_MODULE_ONLY]):
         if excluded(t, switches):
             continue
         src = place(setup_for(t) + t, w)
@@ -299,7 +318,7 @@ def run(report):
     report.extra["other_hosts"] = others
     for part in env.pmap(_call, items):
         report.absorb(part)
-    report.extra["templates"] = len(TEMPLATES) + len(TEMPLATES_IN_FUNC_ONLY)
+    report.extra["templates"] = len(TEMPLATES) + len(TEMPLATES_IN_FUNC_ONLY) + len(TEMPLATES_MODULE_ONLY)
     report.exhaustive = True
     report.notes.append("exhaustive:true refers to the fixed template catalogue x placements x 8 configurations; drawn patterns are sampled")
     for s in switches:
